@@ -17,13 +17,17 @@ module_def_file('zoo/x.def')
 zdir = directory('zoo/dir', include='*.dat')
 build_step('zout.txt', cmd=[R, 'Z', source_file('zoo/in.txt'), zdir])
 test(executable('zoo3', ['zoo/t.c'], includes=[header_file('zoo/t.h')]))
+# vendored headers of the project, searched like a system directory
+zsys = header_directory('zoo/vendor/include', include='**/*.h', system=True)
+executable('zoo4', ['zoo/v.c'], includes=[zsys, header_file('zoo/sysone.h')])
 '''
 
 # files the zoo names (all of them must be distributed)
 ZOO_NAMED = ['zoo/' + x for x in (
     'o1.c', 'o2.c', 'o3.cpp', 'lexer.l', 'pre.h', 'o4.c', 'libpre.a',
     'tool.1', 'c1.txt', 'c2.txt', 'auto.c', 'x.def', 'dir/a.dat', 'in.txt',
-    't.c', 't.h')]
+    't.c', 't.h', 'vendor/include/third/party.h', 'vendor/include/top.h',
+    'v.c', 'sysone.h')]
 
 
 def zoo_files():
@@ -35,6 +39,10 @@ def zoo_files():
     f['zoo/pre.h'] = '#define PRE 1\n'
     f['zoo/t.h'] = '#define T 1\n'
     f['zoo/libpre.a'] = '!<arch>\n'
+    f['zoo/vendor/include/third/party.h'] = '#define PARTY 1\n'
+    f['zoo/vendor/include/top.h'] = '#define TOP 1\n'
+    f['zoo/sysone.h'] = '#define SYSONE 1\n'
+    f['zoo/v.c'] = 'int v;\n'
     f['zoo/tool.1'] = '.TH tool 1\n'
     for z in ('c1.txt', 'c2.txt', 'x.def', 'in.txt', 'dir/a.dat',
               'dir/skip.me'):
